@@ -193,6 +193,23 @@ func (e *Env) wallCandidates(c *CommitRec) []time.Time {
 	return out
 }
 
+// visibleCommits returns how many of the recorded commits are visible to clients: a commit is recorded when
+// the store has taken it, which is before the engine publishes it. (On the unchanged tree nobody can look in
+// between - the engine lock is held from before the store call until after publication - so this is the
+// number of recorded commits; a variant that releases the lock while storing is judged by what it shows.)
+func (e *Env) visibleCommits() int {
+	cat := e.engine.Catalog()
+	for j := len(e.commits); j > 0; j-- {
+		if e.commits[j-1].Cat == cat {
+			return j
+		}
+		if e.commits[j-1].Prev == cat {
+			return j - 1
+		}
+	}
+	return len(e.commits)
+}
+
 // SimStore wraps the store of the run: scheduling point, fault point and
 // recorder of the commit history.
 type SimStore struct {
